@@ -10,6 +10,12 @@ func (c *Conversation) generateNewDHKeyPair() error {
 }
 
 func (c *Conversation) akeHasFinished() error {
+	// the new session starts with a key rotation, which needs randomness: if that fails
+	// nothing has been committed yet and the conversation stays as it was
+	if err := c.ake.keys.generateNewDHKeyPair(c.rand()); err != nil {
+		return err
+	}
+
 	// every key pair of a session that is being replaced is retired by that:
 	// its MAC keys still have to be disclosed
 	toReveal := c.keys.retireAllMACKeys()
@@ -28,7 +34,7 @@ func (c *Conversation) akeHasFinished() error {
 		c.messageEvent(MessageEventMessageReflected)
 	}
 
-	return c.generateNewDHKeyPair()
+	return nil
 }
 
 func (c *Conversation) processAKE(msgType byte, msg []byte) (toSend []messageWithHeader, err error) {
